@@ -95,6 +95,23 @@ type fnResult struct {
 	MemRefused   string     `json:"memRefused,omitempty"`
 }
 
+// convSite: one big.Int -> int64/uint64 conversion
+type convSite struct {
+	Fn     string   `json:"fn"`
+	Method string   `json:"method"`
+	Src    string   `json:"src"`   // back:<k> | derived | min | param:<i> | other
+	Uses   []string `json:"uses"`  // cmp | mem | slice | index | pc | store | arg:<callee> | other:<what>
+	Guard  string   `json:"guard"` // none | direct:<callee> | sum:<callee> | min
+}
+
+// helperCall: an execute function passes a big.Int to a non-method helper of package vm
+type helperCall struct {
+	Fn     string `json:"fn"`
+	Helper string `json:"helper"`
+	Arg    int    `json:"arg"`
+	Opnd   string `json:"opnd"` // back:<k> | global:<name> | other
+}
+
 type makerUse struct {
 	Ctor   string  `json:"ctor"`
 	Opcode int64   `json:"opcode"`
@@ -106,10 +123,13 @@ type makerUse struct {
 type output struct {
 	Funcs   []fnResult `json:"funcs"`
 	Makers  []makerUse `json:"makers"`
+	Convs   []convSite   `json:"convs"`
+	Helpers []helperCall `json:"helpers"`
 	Refused []string   `json:"refused"`
 }
 
 var out output
+var helperSet = map[string]bool{}
 
 func fatal(format string, a ...interface{}) {
 	fmt.Fprintf(os.Stderr, "vmaccess: "+format+"\n", a...)
@@ -757,7 +777,259 @@ func analyse(fn *ssa.Function, name string, e *env, params []string) fnResult {
 			a.memoryAccesses()
 		}
 	}
+	if a.stack != nil && a.memory != nil && res.StackRefused == "" {
+		for _, c := range a.conversions(nil) {
+			c.Fn = name
+			out.Convs = append(out.Convs, c)
+		}
+		for _, h := range a.helperCalls() {
+			h.Fn = name
+			out.Helpers = append(out.Helpers, h)
+			helperSet[h.Helper] = true
+		}
+	}
 	return res
+}
+
+func isBigMethod(c *ssa.CallCommon, names ...string) (string, bool) {
+	if c.IsInvoke() {
+		return "", false
+	}
+	f, ok := c.Value.(*ssa.Function)
+	if !ok || f.Signature.Recv() == nil || f.Pkg == nil || f.Pkg.Pkg.Path() != "math/big" {
+		return "", false
+	}
+	for _, n := range names {
+		if f.Name() == n {
+			return n, true
+		}
+	}
+	return f.Name(), len(names) == 0
+}
+
+func calleeName(c *ssa.CallCommon) string {
+	if c.IsInvoke() {
+		return "invoke:" + c.Method.Name()
+	}
+	switch f := c.Value.(type) {
+	case *ssa.Function:
+		return f.Name()
+	case *ssa.Builtin:
+		return "builtin:" + f.Name()
+	}
+	return "dynamic"
+}
+
+// conversions: every (*big.Int).Uint64 / Int64 call of fn: where its receiver comes from, what the result feeds, and whether a
+// check on the same big.Int (or on a sum it is an addend of) dominates it
+func (a *analysis) conversions(params map[ssa.Value]int) []convSite {
+	var res []convSite
+	fn := a.fn
+	srcOf := func(v ssa.Value) string {
+		if idx, ok := a.popIdx[v]; ok && !a.popBad[v] {
+			return fmt.Sprintf("back:%d", idx)
+		}
+		if i, ok := params[v]; ok {
+			return fmt.Sprintf("param:%d", i)
+		}
+		if c, ok := v.(*ssa.Call); ok {
+			if _, ok := isBigMethod(&c.Call, "Add", "Sub", "Mul", "Set", "Div", "Mod"); ok {
+				return "derived"
+			}
+			if n := calleeName(&c.Call); n == "BigMin" {
+				return "min"
+			}
+		}
+		return "other"
+	}
+	// guard: an If whose condition depends on a call that takes v as an argument, in a block strictly dominating blk through
+	// an edge that belongs to the If alone
+	var dependsOn func(cond ssa.Value, v ssa.Value, depth int) string
+	dependsOn = func(cond ssa.Value, v ssa.Value, depth int) string {
+		if depth > 6 {
+			return ""
+		}
+		switch x := cond.(type) {
+		case *ssa.Call:
+			for _, arg := range x.Call.Args {
+				if arg == v {
+					return calleeName(&x.Call)
+				}
+			}
+		case *ssa.BinOp:
+			if r := dependsOn(x.X, v, depth+1); r != "" {
+				return r
+			}
+			return dependsOn(x.Y, v, depth+1)
+		case *ssa.UnOp:
+			return dependsOn(x.X, v, depth+1)
+		case *ssa.Convert:
+			return dependsOn(x.X, v, depth+1)
+		}
+		return ""
+	}
+	guardOf := func(v ssa.Value, blk *ssa.BasicBlock) string {
+		for _, b := range fn.Blocks {
+			if b == blk || !b.Dominates(blk) || len(b.Instrs) == 0 {
+				continue
+			}
+			ifi, ok := b.Instrs[len(b.Instrs)-1].(*ssa.If)
+			if !ok {
+				continue
+			}
+			callee := dependsOn(ifi.Cond, v, 0)
+			if callee == "" {
+				continue
+			}
+			for _, s := range b.Succs {
+				if len(s.Preds) == 1 && s.Dominates(blk) {
+					return callee
+				}
+			}
+		}
+		return ""
+	}
+	for _, b := range fn.Blocks {
+		for _, ins := range b.Instrs {
+			call, ok := ins.(*ssa.Call)
+			if !ok {
+				continue
+			}
+			m, ok := isBigMethod(&call.Call, "Uint64", "Int64")
+			if !ok {
+				continue
+			}
+			recv := call.Call.Args[0]
+			site := convSite{Fn: fn.Name(), Method: m, Src: srcOf(recv), Guard: "none"}
+			if site.Src == "min" {
+				site.Guard = "min"
+			} else if g := guardOf(recv, b); g != "" {
+				site.Guard = "direct:" + g
+			} else {
+				// addend of a guarded sum
+				for _, r := range *recv.Referrers() {
+					if c2, ok := r.(*ssa.Call); ok {
+						if _, ok := isBigMethod(&c2.Call, "Add"); ok {
+							if g := guardOf(c2, b); g != "" {
+								site.Guard = "sum:" + g
+							}
+						}
+					}
+				}
+			}
+			// uses
+			seen := map[ssa.Value]bool{}
+			uses := map[string]bool{}
+			var follow func(v ssa.Value, depth int)
+			follow = func(v ssa.Value, depth int) {
+				if seen[v] || depth > 10 {
+					return
+				}
+				seen[v] = true
+				refs := v.Referrers()
+				if refs == nil {
+					return
+				}
+				for _, r := range *refs {
+					switch u := r.(type) {
+					case *ssa.Convert:
+						follow(u, depth+1)
+					case *ssa.ChangeType:
+						follow(u, depth+1)
+					case *ssa.Phi:
+						follow(u, depth+1)
+					case *ssa.BinOp:
+						switch u.Op {
+						case token.EQL, token.NEQ, token.LSS, token.LEQ, token.GTR, token.GEQ:
+							uses["cmp"] = true
+						default:
+							follow(u, depth+1)
+						}
+					case *ssa.Call:
+						if mm := memoryMethod(&u.Call); mm != "" && a.memory != nil && len(u.Call.Args) > 0 && u.Call.Args[0] == ssa.Value(a.memory) {
+							uses["mem"] = true
+						} else {
+							uses["arg:"+calleeName(&u.Call)] = true
+						}
+					case *ssa.IndexAddr:
+						isMem := false
+						if ld, ok := u.X.(*ssa.UnOp); ok {
+							if fa, ok := ld.X.(*ssa.FieldAddr); ok && a.memory != nil && fa.X == ssa.Value(a.memory) {
+								isMem = true
+							}
+						}
+						if isMem {
+							uses["mem"] = true
+						} else {
+							uses["index"] = true
+						}
+					case *ssa.Slice:
+						uses["slice"] = true
+					case *ssa.Store:
+						if p, ok := u.Addr.(*ssa.Parameter); ok && p.Name() == "pc" {
+							uses["pc"] = true
+						} else {
+							uses["store"] = true
+						}
+					case *ssa.MakeSlice:
+						uses["other:makeslice"] = true
+					case *ssa.DebugRef:
+					default:
+						uses[fmt.Sprintf("other:%T", r)] = true
+					}
+				}
+			}
+			follow(call, 0)
+			for u := range uses {
+				site.Uses = append(site.Uses, u)
+			}
+			sort.Strings(site.Uses)
+			res = append(res, site)
+		}
+	}
+	return res
+}
+
+// helperCalls: big.Int arguments handed to non-method functions of package vm
+func (a *analysis) helperCalls() []helperCall {
+	var res []helperCall
+	for _, b := range a.fn.Blocks {
+		for _, ins := range b.Instrs {
+			call, ok := ins.(*ssa.Call)
+			if !ok || call.Call.IsInvoke() {
+				continue
+			}
+			f, ok := call.Call.Value.(*ssa.Function)
+			if !ok || f.Pkg == nil || f.Pkg.Pkg.Path() != vmPath || f.Signature.Recv() != nil {
+				continue
+			}
+			for i, arg := range call.Call.Args {
+				if p, ok := arg.Type().(*types.Pointer); !ok || p.Elem().String() != "math/big.Int" {
+					continue
+				}
+				op := "other"
+				if idx, ok := a.popIdx[arg]; ok && !a.popBad[arg] {
+					op = fmt.Sprintf("back:%d", idx)
+				} else if ld, ok := arg.(*ssa.UnOp); ok {
+					if g, ok := ld.X.(*ssa.Global); ok {
+						op = "global:" + g.Name()
+					}
+				}
+				res = append(res, helperCall{Fn: a.fn.Name(), Helper: f.Name(), Arg: i, Opnd: op})
+			}
+		}
+	}
+	return res
+}
+
+// analyseHelper: conversions inside a helper that takes big.Int parameters (no stack)
+func analyseHelper(fn *ssa.Function) []convSite {
+	a := &analysis{fn: fn, env: &env{}, res: &fnResult{}, popIdx: map[ssa.Value]int64{}, popBad: map[ssa.Value]bool{}}
+	params := map[ssa.Value]int{}
+	for i, p := range fn.Params {
+		params[p] = i
+	}
+	return a.conversions(params)
 }
 
 // ---------------------------------------------------------------------------------------------------------------------
@@ -943,6 +1215,17 @@ func main() {
 					out.Refused = append(out.Refused, fmt.Sprintf("%s: result of %s is not stored into a field of an instruction-table element", n, callee.Name()))
 				}
 			}
+		}
+	}
+	// helpers reached with big.Int arguments: their own conversions, with the parameters as sources
+	var hs []string
+	for h := range helperSet {
+		hs = append(hs, h)
+	}
+	sort.Strings(hs)
+	for _, h := range hs {
+		if f, ok := vm.Members[h].(*ssa.Function); ok {
+			out.Convs = append(out.Convs, analyseHelper(f)...)
 		}
 	}
 	sort.Slice(out.Funcs, func(i, j int) bool { return out.Funcs[i].Name < out.Funcs[j].Name })
